@@ -230,7 +230,11 @@ class InventoryModel(InventoryBase):
         model = cls()
         for obj_dict in llsd_val:
             for inv_type in INVENTORY_TYPES:
-                if inv_type.ID_ATTR in obj_dict:
+                id_attr = inv_type.ID_ATTR
+                if flavor == "ais":
+                    # Some node types have their ID under a different name in AIS
+                    id_attr = getattr(inv_type, "ID_ATTR_AIS", id_attr)
+                if id_attr in obj_dict:
                     if (obj := inv_type.from_llsd(obj_dict, flavor)) is not None:
                         model.add(obj)
                     break
